@@ -418,13 +418,18 @@ class Facts:
             raise AnalysisBroken("anchor class vanished: " + qn)
         return out[0]
 
-    def lambdas_in(self, f):
-        """lambda bodies lexically inside function f (any depth)"""
+    def lambdas_in(self, f, _seen=None):
+        """lambda bodies lexically inside function f (any depth, nested lambdas included)"""
         out = []
+        seen = _seen if _seen is not None else set()
         for n in f.nodes():
             if n["k"] == "lambda":
                 for g in self.by_lid.get(n.get("lid"), []):
+                    if id(g) in seen:
+                        continue
+                    seen.add(id(g))
                     out.append((n, g))
+                    out.extend(self.lambdas_in(g, seen))
         return out
 
     def resolve(self, call):
